@@ -49,6 +49,7 @@ def parseQParam (s : String) : Option (String × QV) :=
   match s.splitOn ":" with
   | [k, c] =>
     if c == "e" then some (k, .empty)
+    else if c == "g" then some (k, .garbled)
     else if c.startsWith "i" then some (k, .invalid)
     else if c.startsWith "v." then (parseVal k (c.drop 2).toString).map (fun v => (k, .valid v))
     else none
@@ -123,6 +124,7 @@ def arm (r : Req) : String :=
     the code accepts what the strict reading refuses -/
 def optReasons (r : Req) : List String :=
   let q := r.query
+  (if garbledOption q then ["escape"] else []) ++
   (if (S.mode q).isNone then ["mode"] else []) ++
   (if (S.factors q).isNone then (if (M.factors q).isSome then ["shadowed-factors"] else ["factors"]) else []) ++
   (if (natParam (getq q "shard-size") 0).isNone then ["shard-size"] else []) ++
